@@ -56,6 +56,15 @@ class NT0(NamedTuple):     # a NamedTuple without fields: `_asdict()` is {} (equ
     pass
 
 
+class NTSub(NT1):          # a subclass of a NamedTuple class (itself a NamedTuple class: inherits `_fields`; no annotations of its own)
+    pass
+
+
+class PF:                  # a plain class with the same field names as NT1
+    a: int = 0
+    b: str = ''
+
+
 @dataclasses.dataclass
 class DC:                  # a dataclass with the same field names as NT1
     a: int = 0
@@ -70,7 +79,7 @@ CLASSES = [object, type, abc.ABCMeta, NoneType, bool, int, float, str, bytes, tu
            collections.abc.Sequence, collections.abc.Iterable, collections.abc.Collection, collections.abc.Container,
            collections.abc.Set, collections.abc.MutableSet, collections.abc.MutableSequence, collections.abc.Mapping,
            collections.abc.MutableMapping, collections.abc.Iterator, GeneratorType, ListIterator,
-           P, C1, C2, G, U, MI, L, TS, Pdup, NT1, NT2, NT3, DC, Text, Counter, collections.Counter, map, filter, SelfA, SelfB, Loc, Recv, NT0]
+           P, C1, C2, G, U, MI, L, TS, Pdup, NT1, NT2, NT3, DC, Text, Counter, collections.Counter, map, filter, SelfA, SelfB, Loc, Recv, NT0, NTSub, PF]
 IDX = {c: i for i, c in enumerate(CLASSES)}
 NAMES = {}
 
@@ -149,6 +158,7 @@ def env_json():
             "mroNames": [[nid(k.__name__) for k in c.__mro__] for c in CLASSES],
             "ctx": [[nid(k), IDX[v]] for k, v in CTX.items()],
             "meta": [IDX[type(c)] for c in CLASSES],
+            "isNT": [isinstance(c, type) and issubclass(c, tuple) and hasattr(c, '_fields') for c in CLASSES],
             "fields": fields,
             "litcls": {"none": IDX[NoneType], "bool": IDX[bool], "int": IDX[int], "str": IDX[str], "bytes": IDX[bytes], "flt": IDX[float]},
             "tuple": IDX[tuple], "type": IDX[type], "iterator": IDX[collections.abc.Iterator],
@@ -419,7 +429,7 @@ def gen_ann(r, d, top=True):
     if top: ks += ['none', 'str', 'bare']
     k = r.choice(ks)
     if k == 'cls': return cls_term(r.choice(PLAIN + [object, Pdup]))
-    if k == 'ntcls': return cls_term(r.choice([NT1, NT2, NT3, DC, TS, L]))
+    if k == 'ntcls': return cls_term(r.choice([NT1, NT2, NT3, DC, TS, L, NTSub, PF, NT0]))
     if k == 'any': return ["any"]
     if k == 'none': return ["none"]
     if k == 'str': return ["str", nid(r.choice(list(CTX)))]
@@ -464,7 +474,7 @@ def lit(v):
 
 def inst_of(r, c):
     if c is object: c = r.choice([int, str, P, U])
-    subs = [x for x in [bool, int, float, str, bytes, NoneType] + USER + [NT1, NT2, NT3, DC, TS, L] + list(EXTRA_CTX.values()) if issubclass(x, c)] or [c]
+    subs = [x for x in [bool, int, float, str, bytes, NoneType] + USER + [NT1, NT2, NT3, DC, TS, L, NTSub, PF] + list(EXTRA_CTX.values()) if issubclass(x, c)] or [c]
     c = r.choice(subs)
     if c is NoneType: return lit(None)
     if c is bool: return lit(r.choice([True, False]))
@@ -475,6 +485,7 @@ def inst_of(r, c):
     if c in (NT1, NT2): return ["ntup", IDX[c], [nid('a'), nid('b')], [lit(r.choice([1, 2])), lit(r.choice(['a', 'b']))]]
     if c is NT3: return ["ntup", IDX[c], [nid('x')], [lit(1)]]
     if c is NT0: return ["ntup", IDX[c], [], []]
+    if c is NTSub: return ["ntup", IDX[c], [nid('a'), nid('b')], [lit(r.choice([1, 2])), lit(r.choice(['a', 'b']))]]
     if c is TS: return ["tup", IDX[TS], [lit(1)]]
     if c is L: return ["coll", IDX[L], [lit(1)]]
     if c is tuple: return ["tup", IDX[tuple], []]
@@ -585,7 +596,7 @@ def corrupt_term(r, vt):
         if r.random() < 0.5: kvs[i][1] = corrupt_term(r, kvs[i][1])
         else: kvs[i][0] = gen_any(r, 0)
         return [k, vt[1], kvs]
-    if k == 'ntup' and r.random() < 0.6:
+    if k == 'ntup' and vt[3] and r.random() < 0.6:
         xs = list(vt[3]); i = r.randrange(len(xs)); xs[i] = corrupt_term(r, xs[i])
         return [k, vt[1], vt[2], xs]
     if k == 'lit' and vt[1][0] == 'bool' and r.random() < 0.5: return lit(int(vt[1][1]))
